@@ -113,7 +113,7 @@ var (
 	}
 	footnoteMenu = []decl{d("footnote-display:inline"), d("footnote-display:compact"), d("footnote-policy:line"), d("footnote-policy:block")}
 	hyphenMenu   = []decl{
-		d("hyphenate-limit-chars:2 1 1"), d("hyphenate-limit-chars:0 0 0"), d("hyphenate-limit-zone:50%"), d("hyphenate-character:'ab'"),
+		d("hyphenate-limit-chars:2 1 1"), {css: "hyphenate-limit-chars:0 0 0", tag: "hyphenate-limit-chars:0"}, d("hyphenate-limit-zone:50%"), d("hyphenate-character:'ab'"),
 		d("hyphens:none"), d("overflow-wrap:anywhere"), d("word-break:break-all"), d("letter-spacing:-3px"),
 	}
 )
@@ -122,11 +122,12 @@ var skTags = map[string][]string{
 	"float": {"float:left"}, "abs": {"position:absolute", "position:fixed"}, "table": {"display:table"}, "list": {"display:list-item"},
 	"flex": {"display:flex"}, "grid": {"display:grid"}, "columns": {"columns:2"}, "footnote": {"float:footnote"},
 	"running": {"position:running(h)"}, "inline-block": {"display:inline-block"},
-	"toc": {"content:leader('.')"}, "footnotes": {"float:footnote"}, "running-tree": {"position:running(h)"}, "hyphens": {"hyphens:auto"},
+	"toc": {"content:leader('.')", "text-decoration:underline"}, "footnotes": {"float:footnote"}, "running-tree": {"position:running(h)"}, "hyphens": {"hyphens:auto"},
 }
 
 type decl struct {
 	css     string
+	tag     string // feature tag when the declaration text cannot be one (known-finding lines are split on spaces and commas)
 	invalid bool
 	core    bool // member of the reduced menu explored at level 2 in the quick tier
 }
@@ -134,6 +135,14 @@ type decl struct {
 func d(css string) decl  { return decl{css: css} }
 func dc(css string) decl { return decl{css: css, core: true} }
 func di(css string) decl { return decl{css: css, invalid: true} }
+
+// feature is the tag of the declaration in the case's feature list.
+func (m decl) feature() string {
+	if m.tag != "" {
+		return m.tag
+	}
+	return m.css
+}
 
 var menu = []decl{
 	dc("display:block"), dc("display:inline"), dc("display:inline-block"), d("display:list-item"), dc("display:none"),
@@ -328,7 +337,7 @@ func (c *check) build(cs *caseT) (html string, o render.Options, features []stri
 	for _, dv := range cs.devs {
 		m := declAt(cs.sk, dv.decl)
 		styles[dv.slot] += m.css + ";"
-		features = append(features, m.css)
+		features = append(features, m.feature())
 		if dv.slot == 4 || dv.slot == 5 {
 			features = append(features, "on-root-or-body")
 		}
@@ -383,24 +392,6 @@ func (c *check) Run(u int64, ctx *engine.Ctx) {
 	cs := c.caseOf(u)
 	html, o, feats := c.build(&cs)
 	desc := fmt.Sprintf("F{%s} hints=%v engine=%s zoom=%g html=%s", strings.Join(feats, "|"), o.Hints, o.Engine, o.Zoom, html)
-	if f := os.Getenv("C01_DEV_FILTER"); f != "" { // DEVONLY
-		hit := false
-		for _, alt := range strings.Split(f, ",") {
-			hit = hit || strings.Contains(strings.Join(feats, "|"), alt)
-		}
-		if !hit {
-			ctx.Case(false, "filtered")
-			return
-		}
-		if dump := os.Getenv("C01_DEV_DUMP"); dump != "" { // DEVONLY
-			if fh, err := os.OpenFile(dump, os.O_APPEND|os.O_CREATE|os.O_WRONLY, 0o644); err == nil {
-				fmt.Fprintf(fh, "%s\x00%s\x00%s\n", strings.Join(feats, "|"), o.Engine, strings.ReplaceAll(html, "\n", " "))
-				fh.Close()
-			}
-			ctx.Case(false, "dumped")
-			return
-		}
-	}
 	if hasGrid(feats) {
 		ctx.SetCaseBudget(2) // inside the known non-terminating region: the verdict cannot change the outcome
 	} else {
